@@ -361,6 +361,28 @@ func (e *Engine) LemmaObligations(want map[string]bool) ([]*Obligation, error) {
 				hyps = append(hyps, smt.Implies(smt.Le(lo, smt.Sub(v, smt.IntC(1))), pb))
 			}
 		}
+		for _, un := range l.Using {
+			ul := e.Lemmas[un]
+			if ul == nil {
+				return nil, fmt.Errorf("%s:%d: lemma %s uses unknown lemma %s", l.File, l.Line, n, un)
+			}
+			var bvs []*smt.Term
+			var uargs []SVal
+			for _, p := range ul.Params {
+				srt, gt, err := e.resolveType(ul.Pkg, p.Type)
+				if err != nil {
+					return nil, err
+				}
+				bv := smt.Var(smt.FreshName("u$"+p.Name), srt)
+				bvs = append(bvs, bv)
+				uargs = append(uargs, SVal{T: bv, GT: gt})
+			}
+			ub, err := safeEval(func() *smt.Term { return x.lemmaInstance(env, ul, uargs) })
+			if err != nil {
+				return nil, err
+			}
+			hyps = append(hyps, smt.Forall(bvs, ub))
+		}
 		out = append(out, &Obligation{Name: "lemma#" + n, Func: "lemma " + n, Kind: "lemma", Props: l.Props, Hyps: hyps, Goal: goal, Src: l.Src})
 	}
 	return out, nil
